@@ -100,6 +100,18 @@ macro_rules! konst_hist {
                     None => v.push(format!("N@{}", view_str(s, $asstr(&it)))),
                 }
             }
+            // the state after the history, reversed (copy().rev()) and drained from its front
+            let mut r = it.copy().rev();
+            let mut d: Vec<String> = Vec::new();
+            while let Some((x, nr)) = r.copy().next() {
+                d.push($show(x));
+                r = nr;
+                if d.len() > 10_000 {
+                    d.push("RUNAWAY".into());
+                    break;
+                }
+            }
+            v.push(format!("R{}", d.join(".")));
             format!("[{}]", v.join(","))
         })
     }};
@@ -126,6 +138,8 @@ where
             None => v.push(format!("N@{}", view_str(s, &s[lo..hi]))),
         }
     }
+    let d: Vec<String> = it.rev().map(|x| show(&x)).collect();
+    v.push(format!("R{}", d.join(".")));
     format!("[{}]", v.join(","))
 }
 
@@ -155,6 +169,8 @@ fn one_iter(out: &mut Out, s: &str, h: &[u8]) {
                 None => v.push(format!("N@{}", view_str(s, it.as_str()))),
             }
         }
+        let d: Vec<String> = it.rev().map(|c| format!("{:x}", c as u32)).collect();
+        v.push(format!("R{}", d.join(".")));
         format!("[{}]", v.join(","))
     };
     let fwd_ci = {
@@ -167,6 +183,8 @@ fn one_iter(out: &mut Out, s: &str, h: &[u8]) {
                 None => v.push(format!("N@{}", view_str(s, it.as_str()))),
             }
         }
+        let d: Vec<String> = it.rev().map(|(o, c)| format!("{}:{:x}", o, c as u32)).collect();
+        v.push(format!("R{}", d.join(".")));
         format!("[{}]", v.join(","))
     };
     let st = fields(&[
